@@ -10,6 +10,7 @@ mod util;
 mod worker;
 
 mod c01;
+mod c06;
 mod c02;
 mod c03;
 mod c04;
@@ -97,6 +98,7 @@ fn main() {
         }
         "worker" => match args[2].as_str() {
             "C01" => worker::worker_main(c01::worker_case),
+            "C06" => worker::worker_main(c06::worker_case),
             "C05" => c05::worker(),
             _ => std::process::exit(2),
         },
